@@ -828,3 +828,7 @@ mod tests {
         assert_eq!(predicted_pops, actual_pops);
     }
 }
+
+#[cfg(kani)]
+#[path = "/verif/units/kani/free_list.rs"]
+mod verif_kani;
